@@ -91,6 +91,9 @@ type World struct {
 
 	Ext interface{} // F-world extension
 
+	// LastRecv lists the packets received (acknowledgement written) in the last produced block, in execution order.
+	LastRecv []*PacketRec
+
 	// Agenda holds follow-up actions a generator scheduled (macros such as "run the handshake"); generators pop
 	// from it before drawing anything new. It is derived from drawn values only, so traces stay reproducible.
 	Agenda []Action
@@ -381,6 +384,9 @@ var extraAppliers = map[string]func(w *World, a *Action, idx int) *StepResult{}
 func (w *World) Busy(acc string) bool { return w.busy[acc] }
 
 func (w *World) providerBlock(a *Action) *StepResult {
+	if w.P.Halted {
+		return &StepResult{Skipped: "provider halted"}
+	}
 	absent := map[string]bool{}
 	for _, n := range a.Absent {
 		absent[w.Keys.Get(n).Priv.PubKey().Address().String()] = true
@@ -400,6 +406,10 @@ func (w *World) providerBlock(a *Action) *StepResult {
 	w.busy = map[string]bool{}
 	if br.Failed() {
 		return res
+	}
+	if br.EngineHalt != "" {
+		// cannot happen while the safe validator is protected; if it does, the rest of the case is void
+		w.Label("provider-halted-empty-set")
 	}
 	if len(br.Resp.TxResults) != len(q) {
 		panic(sim.HarnessError{Msg: fmt.Sprintf("tx results %d != queued %d", len(br.Resp.TxResults), len(q))})
